@@ -25,9 +25,18 @@ def main():
         print("ERR", err); return
     for jr in out["results"]:
         print(json.dumps({k: jr.get(k) for k in ("paths", "complete", "error", "outcomes", "covers", "wall_s", "notes", "undischarged")})[:600])
+        if jr.get("outside_bound"):
+            print("   OUTSIDE", json.dumps(jr["outside_bound"])[:600])
         if jr.get("global_writes"):
             print("   GW", json.dumps(jr["global_writes"])[:1500])
         for v in (jr.get("violations") or [])[:int(os.environ.get("NV", "3"))]:
-            print("   VIOL", v["kind"], v["id"], v.get("pos"), json.dumps(v["model"])[:300], "params=", json.dumps(jr["params"]))
+            print("   VIOL", v["kind"], v["id"], v.get("pos"), json.dumps(v["model"])[:300], "params=", json.dumps(jr["params"])[:int(os.environ.get("PW", "200"))])
+            if os.environ.get("REPLAY"):
+                nr = driver.native_replay(pkg, [{"harness": jr["harness"], "params": jr["params"], "model": v["model"], "tag": v["id"]}])[0]
+                print("   NATIVE", nr["outcome"], nr.get("failed"))
+                for n in nr.get("notes") or []:
+                    print("      " + n)
+                if nr.get("race_report"):
+                    print(nr["race_report"][:800])
     print("wall", wall)
 main()
